@@ -101,6 +101,13 @@ CHECKS["C14"] = dict(
     technique="bounded-exhaustive metamorphic enumeration of all trivia placements on the real pipeline, byte equality of the output",
 )
 
+CHECKS["C15"] = dict(
+    category="exploration",
+    text="Base programs: M0 pool programs with classes, fields, methods, parents, operators, handlers, functions, tuples, plus 12 hand-written bases for name-sensitive constructs (size, defaults, sqrt, nullable default, conditional type alias, interface with a concrete parent, tuple destructuring, interpolation, field update). For every base and EVERY user-chosen identifier of it (found by an independent tokenizer; keywords, self, __init__, print, operator names and Mamba's built-in type names stay fixed), the identifier is renamed consistently - also inside string interpolations - to every unused name of a pool of 21 lower-case names (foo, bar1, q, _t and the colliding size, init, super, math, typing, abstractmethod, err, other, abc, optional, list, dict, object, ...) or, for class names, 9 capitalised names (Foo, Optional, Union, NewType, ABC, Generic, ...); the thorough tier adds every injective pair of renamings over the first five identifiers. Both annotate settings. Oracle: verdict unchanged and parse(out(rename(P))) == rename(parse(out(P))) on CPython ASTs (names, attributes, parameters, keywords, def/class names, except and match binders).",
+    design_ref="DESIGN.md §4 C15", note="The hidden stub class Generic (C15-F1) is a known finding.",
+    technique="bounded-exhaustive metamorphic enumeration of all single (pairwise) renamings into a collision-biased name pool, AST comparison",
+)
+
 REASON_PENDING = "check not built yet in this session (see DESIGN.md Appendix D build order); nothing is claimed for it"
 
 
